@@ -2362,13 +2362,19 @@ impl RaftNode {
             if log_ok {
                 success = self.append_leader_entries(&ae.entries, &mut persistent);
 
-                match_index = persistent.array_len_as_log_index();
+                // Only the prefix checked against the leader's log is known to match it: anything
+                // beyond the last new entry may be a stale suffix left over from an earlier term
+                // and must neither be acknowledged as replicated nor be committed.
+                let last_new_entry = ae.prev_log_index + ae.entries.len() as u64;
+                match_index = last_new_entry.min(persistent.array_len_as_log_index());
 
                 // Update commit index
                 let mut volatile = self.volatile.write();
                 if ae.leader_commit > volatile.commit_index {
-                    volatile.commit_index =
-                        ae.leader_commit.min(persistent.array_len_as_log_index());
+                    volatile.commit_index = ae
+                        .leader_commit
+                        .min(match_index)
+                        .max(volatile.commit_index);
                 }
             }
         }
